@@ -387,5 +387,6 @@ def handshakeDispatch (toks : List String) : Option String :=
   -- a scripted TLS 1.2 server that holds the server's keys (harness/c15evil.go): the client completes with the honest
   -- one and with no other (intrinsic oracle in the harness: ORACLE-FAIL:completed-on-misbehaviour)
   | ["evilsrv", v, _, _] => some (if v = "honest" then "done" else "error")
+  | ["evilgm", v, _, _] => some (if v = "honest" then "done" else "error")
   | _ => none
 end Driver
